@@ -39,7 +39,8 @@ func p256Public(typ string, mat int) *ecdsa.PublicKey {
 }
 
 // independentlyValid: ok = out is valid under k; known = an independent oracle exists for k's type.
-func independentlyValid(k ref.SelKey, out []byte) (ok, known bool) {
+func independentlyValid(k ref.SelKey, out, m []byte) (ok, known bool) {
+	msg := orMsg(m)
 	pre := ref.SelPrefix(k)
 	if k.KidMode != ref.SelKidNone {
 		pre = nil
@@ -76,7 +77,10 @@ func independentlyValid(k ref.SelKey, out []byte) (ok, known bool) {
 			return false, false
 		}
 		d := sha256.Sum256(legacyData(k, msg))
-		return ecdsa.VerifyASN1(pk, d[:], body), true
+		if len(body) != 64 {
+			return false, true
+		}
+		return ecdsa.Verify(pk, d[:], new(big.Int).SetBytes(body[:32]), new(big.Int).SetBytes(body[32:])), true
 	case "HS256", "HS384", "ES256":
 		parts := strings.Split(string(out), ".")
 		if len(parts) != 3 {
